@@ -53,4 +53,14 @@ class DownChunkingPlugin(Plugin):
                     f"Plugin {self.__class__.__name__} should yield (dict of) "
                     "strax.Chunk in compute method."
                 )
+            if isinstance(_result, dict):
+                expected_types = list(_result.keys())
+            else:
+                expected_types = [self.provides[0]]
+            for v, data_type in zip(values, expected_types):
+                if v.data_type != data_type:
+                    raise ValueError(
+                        f"{self.__class__.__name__} returned a Chunk with data_type "
+                        f"{v.data_type} instead of {data_type}."
+                    )
             yield self.superrun_transformation(_result, superrun, subruns)
